@@ -4,6 +4,7 @@ import (
 	"bytes"
 	"fmt"
 	"io"
+	"sync"
 	"sync/atomic"
 	"time"
 
@@ -20,6 +21,8 @@ type MuxResult struct {
 	StopReturned bool   `json:"stop"`
 	StopMs       int64  `json:"stop_ms"`
 	Accepted     int32  `json:"accepted"`
+	Held         int    `json:"held"`        // tubes the application keeps without reading
+	HeldQueued   int    `json:"held_queued"` // datagrams waiting in held unreliable tubes after the injection
 	Note         string `json:"note"`
 }
 
@@ -77,8 +80,8 @@ func RunMuxCase(frames [][]byte, opts MuxOpts, stopBound time.Duration) (res Mux
 	victim := tubes.Server(cv, &tubes.Config{Timeout: 60 * time.Second, Log: quietLog()})
 	peer := tubes.Client(cp, &tubes.Config{Timeout: 60 * time.Second, Log: quietLog()})
 	var accepted atomic.Int32
+	var heldMu sync.Mutex
 	var held []tubes.Tube
-	_ = held
 	go func() {
 		for {
 			t, err := victim.Accept()
@@ -92,7 +95,9 @@ func RunMuxCase(frames [][]byte, opts MuxOpts, stopBound time.Duration) (res Mux
 					return
 				}
 			} else if t.Type() == HoldTubeType {
+				heldMu.Lock()
 				held = append(held, t) // kept open, never read
+				heldMu.Unlock()
 			} else {
 				go t.Close()
 			}
@@ -115,6 +120,14 @@ func RunMuxCase(frames [][]byte, opts MuxOpts, stopBound time.Duration) (res Mux
 		time.Sleep(5 * time.Millisecond)
 	}
 	time.Sleep(30 * time.Millisecond)
+	heldMu.Lock()
+	res.Held = len(held)
+	for _, t := range held {
+		if u, ok := t.(*tubes.Unreliable); ok {
+			res.HeldQueued += tubes.VerifWireUnreliableQueued(u)
+		}
+	}
+	heldMu.Unlock()
 	res.EchoAfter = pingPong(probe, "ping-after-injection", 20*time.Second)
 	start := time.Now()
 	done := make(chan struct{})
